@@ -22,7 +22,7 @@ func init() { Register(c13{}) }
 func (c13) ID() string    { return "C13" }
 func (c13) Level() string { return "exploration" }
 func (c13) Rule() string {
-	return "case = 2-4 instances (writers and readers, mixed shapes/codecs/page sizes, each with its own seeded history) x scheduler policy {uniform, sticky(p), round-robin(q), switch-on-Put, switch-on-Get, PCT(d<=3)} x pool policy {lifo, fifo, random reuse; seeded capacities with garbage; prefilled pools; 0-3 prior instances run to completion first}. Three phases per run: solo reference of every instance on a pristine non-reusing pool, prior history, interleaved execution; every pool Get/Put, every ByteBuffer method, every sink write and every source read is a scheduling point. Oracle: interleaved bytes/records == solo reference, no write into a released buffer (poison checksum), no double release, no panic. Non-trivial = the executed schedule pre-empted a task at least once while it held a pool buffer; distinct = distinct (workload digest, executed-schedule hash, pool policy)."
+	return "case = 2-4 instances (writers and readers, mixed shapes/codecs/page sizes, each with its own seeded history) x scheduler policy {uniform, sticky(p), round-robin(q), switch-on-Put, switch-on-Get, PCT(d<=3)} x pool policy {lifo, fifo, random reuse; seeded capacities with garbage; prefilled pools; 0-3 prior instances run to completion first}. Three phases per run: solo reference of every instance on a pristine non-reusing pool, prior history, interleaved execution; every pool Get/Put, every ByteBuffer method, every sink write and every source read is a scheduling point. Oracle: interleaved bytes/records == solo reference, no write into a released buffer (poison checksum), no double release, no panic. One run in 40 is a fresh-process case instead: 2-4 instances (biased to twin shapes: same column names, different physical types) executed sequentially in several freshly started OS processes (each alone, all in two orders, one repeated last); an instance must produce the same output in every process. Non-trivial = the executed schedule pre-empted a task at least once while it held a pool buffer; distinct = distinct (workload digest, executed-schedule hash, pool policy)."
 }
 func (c13) Assumptions() []string {
 	return []string{
@@ -32,7 +32,7 @@ func (c13) Assumptions() []string {
 	}
 }
 func (c13) Probes() []string {
-	return []string{"pool/cross-task-reuse", "pool/prefill-consumed", "pool/poison-verified", "sched/uniform", "sched/sticky", "sched/roundrobin", "sched/onput", "sched/onget", "sched/pct", "get/lifo", "get/fifo", "get/random", "prior-instances", "tasks/reader", "tasks/writer", "tasks/with-own-fault", "preempt-while-holding"}
+	return []string{"pool/cross-task-reuse", "pool/prefill-consumed", "pool/poison-verified", "sched/uniform", "sched/sticky", "sched/roundrobin", "sched/onput", "sched/onget", "sched/pct", "get/lifo", "get/fifo", "get/random", "prior-instances", "tasks/reader", "tasks/writer", "tasks/with-own-fault", "preempt-while-holding", "procs/cases", "procs/twin-shapes-in-one-process"}
 }
 func (c13) Runs(tier string) int {
 	if tier == "thorough" {
@@ -46,7 +46,7 @@ var getPolicies = []string{"lifo", "fifo", "random"}
 var newCapChoices = []int{0, 1, 7, 64, 4096, 1 << 16}
 
 func c13Task(r *core.Rng, tier string) core.TaskSpec {
-	o := core.HistOpts{Shapes: allShapes, PageMin: 1, PageMax: 4, MinBatches: 1, MaxBatches: 3, MaxOps: 10, Profile: core.Benign}
+	o := core.HistOpts{Shapes: c13Shapes, PageMin: 1, PageMax: 4, MinBatches: 1, MaxBatches: 3, MaxOps: 10, Profile: core.Benign}
 	if tier == "thorough" {
 		o.MaxOps = 16
 	}
@@ -71,6 +71,36 @@ func c13Task(r *core.Rng, tier string) core.TaskSpec {
 func (p c13) Run(runseed uint64, tier string, acc *Acc) []*core.Violation {
 	r := core.NewRng(runseed)
 	acc.Runs++
+	if r.Chance(1, 40) {
+		// fresh-process arm: whole process lifetimes, restart = new OS process
+		c := p.genProcs(r, tier, runseed)
+		res, err := p.execProcs(c)
+		acc.Evals++
+		if err != nil {
+			acc.Unusable++
+			acc.Inc("procs/child-error")
+			return nil
+		}
+		acc.Steps += res.steps
+		acc.MixFP(res.fp)
+		acc.Inc("procs/cases")
+		acc.AddN("procs/fresh-processes", len(c.Procs))
+		twin := map[string]bool{}
+		for _, t := range c.Tasks {
+			twin[t.W.Shape] = true
+		}
+		if (twin["flat"] && twin["flatb"]) || (twin["nested"] && twin["nestedb"]) {
+			acc.Inc("procs/twin-shapes-in-one-process")
+		}
+		acc.Mark(core.Mix(res.fp, 0x9c5), 1)
+		if acc.Counters["procs/cases"] == 1 {
+			acc.Sample(c, 4)
+		}
+		if res.vio != nil {
+			return []*core.Violation{res.vio}
+		}
+		return nil
+	}
 	c := &core.Case{Prop: "C13", Seed: runseed}
 	nt := r.Range(2, 4)
 	for i := 0; i < nt; i++ {
@@ -195,6 +225,9 @@ func c13Reference(t *core.TaskSpec) (*c13Ref, error) {
 }
 
 func (p c13) exec(c *core.Case) (*c13Result, error) {
+	if len(c.Procs) > 0 {
+		return p.execProcs(c)
+	}
 	if len(c.Tasks) == 0 || c.Sched == nil || c.Pool == nil {
 		return nil, fmt.Errorf("C13 case needs tasks, sched and pool")
 	}
@@ -398,6 +431,9 @@ func (p c13) Check(c *core.Case) (*core.Violation, error) {
 }
 
 func (p c13) Shrink(c *core.Case) []*core.Case {
+	if len(c.Procs) > 0 {
+		return shrinkProcs(c)
+	}
 	var out []*core.Case
 	clone := func() *core.Case { return c.Clone() }
 	// fewer prior instances, no prefill, simpler pool
